@@ -167,6 +167,8 @@ def run_type(pane, res, tsi, bri, kind, li, tier):
             data.append(('non_mapping', ABSENT, None, v))
     second_attribute_and_holder(pane, res, variants, tagset, layout, kind, bodyrel, TU, info)
     embeddings(pane, res, variants, tagset, layout, kind, bodyrel, TU, info)
+    if kind == 'pane' and layout[0] == 'internal' and bodyrel == 'identical':
+        noinit_tag(pane, res, tagset, info)
     seen = set()
     for case, tg, body, d in data:
         k = values.ckey(d)
@@ -313,6 +315,34 @@ def second_attribute_and_holder(pane, res, variants, tagset, layout, kind, bodyr
             core.add_violation(res, {'kind': 'tuple_output_holder_roundtrip', 'layout': lname, 'vkind': kind},
                                f"{lname}/{kind}/{bodyrel} tags={tagset}: a tuple-output dataclass with a field of the tagged union: {got}",
                                dict(info, d='holder'), 5)
+
+
+def noinit_tag(pane, res, tagset, info):
+    """Variants whose tag is a field the class sets itself (init=False): under the internal layout the tag is still written with the
+    variant's own keys and read back."""
+    from pane.annotations import Tagged
+    vs = []
+    for i, tag in enumerate(tagset):
+        ns = {'__annotations__': {'y': int, 'x': t.Literal[tag]}, 'y': 1, 'x': pane.field(default=tag, init=False), '__module__': 'mc.generated'}
+        vs.append(grammar.pin(type(f"N{i + 1}", (pane.PaneBase,), ns)))
+    TU = grammar.pin(t.Annotated[t.Union[tuple(vs)], Tagged('x')])
+    for V, tag in zip(vs, tagset):
+        res['evals'] += 1
+        res['validated'] += 1
+        res['transitions'] += 3
+        res['nontrivial'].add(f"noinit_tag|{type(tag).__name__}")
+        cell = dict(info, d=f"noinit:{tag!r}")
+        try:
+            x = pane.from_data({'x': tag, 'y': 4}, TU)
+            d = pane.into_data(x, TU)
+            back = pane.from_data(values.fresh(d), TU)
+            ok = type(x) is V and isinstance(d, dict) and 'x' in d and type(back) is V and back == x
+            got = f"from_data -> {core.srepr(x, 40)}, into_data -> {core.srepr(d, 60)}, read back -> {core.srepr(back, 40)}"
+        except Exception as e:  # noqa
+            ok, got = False, f"{type(e).__name__}: {core.sstr(e, 100)}"
+        if not ok:
+            core.add_violation(res, {'kind': 'noinit_tag_roundtrip', 'tagtype': type(tag).__name__},
+                               f"internal layout, variants whose tag field is init=False, tags={tagset}, tag {tag!r}: {got}", cell, 5)
 
 
 _TRUE: t.List[t.Any] = []
